@@ -6,6 +6,12 @@ V = os.path.dirname(os.path.dirname(os.path.abspath(__file__)))
 ids = [json.loads(l)["id"] for l in open(f"{V}/properties.jsonl")]
 
 CHECKS = {
+ "C02": dict(
+  cat="exploration", ref="DESIGN.md §4 C02",
+  technique="grammar-based generation of accepted configurations (tape-driven generator over the whole action grammar, boundary numerics, actions in every context) x unrestricted generated event histories, run on the real state machine in isolated workers; oracle = no panic / error / abort / hang; proptest + ddmin shrinking",
+  text="Every accepted generated configuration is driven with physically impossible histories too (repeated presses, releases of keys that are up, taps, repeats, floods of up to 5000 events, gaps at every timeout boundary and beyond the u16 range), half of them through the idle-blocking decision as well. Any panic (overflow checks and debug assertions on), error return, abort or confirmed hang is a violation, attributed to the exact case by the driver and shrunk.",
+  note="Three chords-v2 capacity assertions (F4a-c) are recorded as known findings; their triggers (floods / repeated presses with chords v2 configured) are excluded from the generator by construction so the search continues behind them. Seven run-time crash defects found by this check were repaired with fix: commits; witnesses in regress/C02 are replayed first."),
+
  "C03": dict(
   cat="exploration", ref="DESIGN.md §4 C03",
   technique="structure-aware mutation fuzzing (proptest-generated mutation programs over a corpus extracted from the tree: sample configs, doc snippets, test configs) with an in-target oracle on the returned diagnostic; crash/hang attribution by isolated worker processes; ddmin shrinking",
